@@ -540,6 +540,15 @@ theorem intake_conservation (k : Intake.Conf) (ct : Nat) (progs : List (List Op)
 Hypotheses are the usage assumptions of each theorem (one consumer thread `ct`; for UnboundedMailbox
 additionally each message context enqueued once; a strict weak order as priority function). -/
 
+/-- Treiber-intake conservation, as cited by `Refines` for the three intake-based mailboxes -/
+def IntakeConserves (k : Intake.Conf) : Prop :=
+  ∀ (ct : Nat) (progs : List (List Op)) (sched : List Nat), IntakeInv.IntakeWF ct progs →
+    IntakeInv.insertedOf (IntakeInv.traceI (initCfg (Intake.algo k) Intake.init progs) sched) ++
+        (runSched (initCfg (Intake.algo k) Intake.init progs) sched).sh.batch.drop
+          (runSched (initCfg (Intake.algo k) Intake.init progs) sched).sh.done ++
+        (runSched (initCfg (Intake.algo k) Intake.init progs) sched).sh.stack.reverse =
+      IntakeInv.pushedOf (IntakeInv.traceI (initCfg (Intake.algo k) Intake.init progs) sched)
+
 def Refines : MB → Prop
   | .unbounded =>
     -- FIFO reservation queue: Dequeue's values = the specification's dequeues = a prefix of the reservation
@@ -574,27 +583,32 @@ def Refines : MB → Prop
         (∀ x rest, Model.C04.Heap.pop lt c.sh.heap = some (x, rest) → (x :: rest).Perm c.sh.heap ∧ ∀ y ∈ rest, lt y x = false) ∧
         (c.sh.locked = false → c.sh.length = c.sh.heap.length)
   | .usprio lt =>
-    StrictWeak lt → ∀ (progs : List (List Op)) (c : Cfg (Intake.algo { cap := none, stable := true, lt })),
+    IntakeConserves { cap := none, stable := true, lt } ∧
+    (StrictWeak lt → ∀ (progs : List (List Op)) (c : Cfg (Intake.algo { cap := none, stable := true, lt })),
       Reach _ (initCfg _ Intake.init progs) c →
         ∀ x rest, Model.C04.Heap.pop (Intake.Conf.ltItem { cap := none, stable := true, lt }) c.sh.heap = some (x, rest) →
-          (x :: rest).Perm c.sh.heap ∧ ∀ y ∈ rest, lt y.1 x.1 = false ∧ (lt x.1 y.1 = true ∨ x.2 ≤ y.2)
+          (x :: rest).Perm c.sh.heap ∧ ∀ y ∈ rest, lt y.1 x.1 = false ∧ (lt x.1 y.1 = true ∨ x.2 ≤ y.2))
   | .bprio cap lt =>
-    StrictWeak lt → ∀ (progs : List (List Op)) (c : Cfg (Intake.algo { cap := some cap, stable := false, lt })),
+    IntakeConserves { cap := some cap, stable := false, lt } ∧
+    (StrictWeak lt → ∀ (progs : List (List Op)) (c : Cfg (Intake.algo { cap := some cap, stable := false, lt })),
       Reach _ (initCfg _ Intake.init progs) c →
         c.sh.length ≤ (cap : Int) ∧
         ∀ x rest, Model.C04.Heap.pop (Intake.Conf.ltItem { cap := some cap, stable := false, lt }) c.sh.heap = some (x, rest) →
-          (x :: rest).Perm c.sh.heap ∧ ∀ y ∈ rest, lt y.1 x.1 = false
+          (x :: rest).Perm c.sh.heap ∧ ∀ y ∈ rest, lt y.1 x.1 = false)
   | .bsprio cap lt =>
-    StrictWeak lt → ∀ (progs : List (List Op)) (c : Cfg (Intake.algo { cap := some cap, stable := true, lt })),
+    IntakeConserves { cap := some cap, stable := true, lt } ∧
+    (StrictWeak lt → ∀ (progs : List (List Op)) (c : Cfg (Intake.algo { cap := some cap, stable := true, lt })),
       Reach _ (initCfg _ Intake.init progs) c →
         c.sh.length ≤ (cap : Int) ∧
         ∀ x rest, Model.C04.Heap.pop (Intake.Conf.ltItem { cap := some cap, stable := true, lt }) c.sh.heap = some (x, rest) →
-          (x :: rest).Perm c.sh.heap ∧ ∀ y ∈ rest, lt y.1 x.1 = false ∧ (lt x.1 y.1 = true ∨ x.2 ≤ y.2)
+          (x :: rest).Perm c.sh.heap ∧ ∀ y ∈ rest, lt y.1 x.1 = false ∧ (lt x.1 y.1 = true ∨ x.2 ≤ y.2))
   | .fair =>
     -- composite (per-sender queues + active list): modelled and tied only.  What IS proved: each per-sender
     -- sub-queue is an UnboundedMailbox, i.e. refines the FIFO reservation queue in isolation
     ∀ (ct tid : Nat) (c : UB.Cf) (cells : List Cell), UB.Inv ct c cells →
       ∃ cells', UB.specStep cells (UB.stepEv c tid) = some cells' ∧ UB.Inv ct (stepCfg c tid) cells'
+
+
 
 /-- EVERY mailbox kind refines its documented sequential queue, in the sense of `Refines`
 (the fair mailbox only through its per-sender sub-queues; its composite is tied by the differential) -/
@@ -618,10 +632,12 @@ theorem C04_all_refine : ∀ m : MB, Refines m := by
     obtain ⟨h1, h2⟩ := uprio_priority_order lt hsw progs c hr
     exact ⟨h1, fun x rest hp => ⟨(h2 x rest hp).1, (h2 x rest hp).2.1⟩, (uprio_empty_sound lt progs c hr).1⟩
   | usprio lt =>
+    refine ⟨fun ct progs sched wf => (intake_conservation _ ct progs wf sched).1, ?_⟩
     intro hsw progs c hr x rest hp
     have h := (intake_priority_order { cap := none, stable := true, lt } hsw progs c hr).2 x rest hp
     exact ⟨h.1, stable_priority_then_arrival { cap := none, stable := true, lt } rfl hsw progs c hr x rest hp⟩
   | bprio cap lt =>
+    refine ⟨fun ct progs sched wf => (intake_conservation _ ct progs wf sched).1, ?_⟩
     intro hsw progs c hr
     refine ⟨bounded_priority_capacity { cap := some cap, stable := false, lt } cap rfl progs c hr, ?_⟩
     intro x rest hp
@@ -631,6 +647,7 @@ theorem C04_all_refine : ∀ m : MB, Refines m := by
     have := h.2.1 y hy
     simpa [Intake.Conf.ltItem] using this
   | bsprio cap lt =>
+    refine ⟨fun ct progs sched wf => (intake_conservation _ ct progs wf sched).1, ?_⟩
     intro hsw progs c hr
     refine ⟨bounded_priority_capacity { cap := some cap, stable := true, lt } cap rfl progs c hr, ?_⟩
     intro x rest hp
